@@ -277,8 +277,11 @@ impl<'input> GrmtoolsSectionParser<'input> {
             Some(m) => {
                 let num_span = Span::new(i + m.start(), i + m.end());
                 let num_str = &self.src[num_span.start()..num_span.end()];
-                // If the above regex matches we expect this to succeed.
-                let num = str::parse::<u64>(num_str).unwrap();
+                // The regex only matches digits, so the only way this can fail is overflow.
+                let num = str::parse::<u64>(num_str).map_err(|_| HeaderError {
+                    kind: HeaderErrorKind::InvalidEntry("number too large"),
+                    locations: vec![num_span],
+                })?;
                 let val = Setting::Num(num, num_span);
                 i = self.parse_ws(num_span.end());
                 Ok((val, i))
@@ -301,6 +304,7 @@ impl<'input> GrmtoolsSectionParser<'input> {
 
                         loop {
                             j = self.parse_ws(j);
+                            let iter_start_pos = j;
                             if let Some(end_pos) = self.lookahead_is("]", j) {
                                 return Ok((
                                     Setting::Array(
@@ -317,6 +321,14 @@ impl<'input> GrmtoolsSectionParser<'input> {
                             }
                             if let Some(k) = self.lookahead_is(",", j) {
                                 j = k
+                            }
+                            if j == iter_start_pos {
+                                // Neither a value, nor a ',' nor the closing ']': without this
+                                // check we would loop forever without consuming any input.
+                                return Err(HeaderError {
+                                    kind: HeaderErrorKind::ExpectedToken(']'),
+                                    locations: vec![Span::new(j, j)],
+                                });
                             }
                         }
                     } else {
